@@ -46,6 +46,7 @@ Cmds(op, a, dl, db) ==
     [] op = "flash_read_resource"      -> << P(16, 0, <<a[1], a[2], a[3]>>) >>                     \* start, byte count, option
     [] op = "configure_memory"         -> << P(17, 0, <<a[2], a[1]>>) >>                           \* wire order: memory id, address of the configuration block
     [] op = "reliable_update"          -> << P(18, 0, <<a[1]>>) >>
+    [] op = "generate_key_blob"        -> << P(19, HasData, <<a[1], dl, Wd(0)>>), P(19, 0, <<a[1], a[2], Wd(1)>>) >>   \* key selector, key length, phase 0; key selector, blob size, phase 1
     [] op = "fuse_program"             -> << P(20, HasData, <<a[1], dl, Mem(a[2])>>) >>
     [] op = "kp_enroll"                -> << P(21, 0, <<Wd(KpEnroll)>>) >>
     [] op = "kp_set_user_key"          -> << P(21, HasData, <<Wd(KpSetUserKey), a[1], dl>>) >>     \* key type, byte count
